@@ -41,6 +41,16 @@ def op? : Sexp → Option Op
   | .list [.atom "reset"] => some .reset
   | .list (.atom "subscribe" :: n :: b) => do some (.subscribe (← n.nat?) (← beh? b))
   | .list [.atom "unsubscribe", n] => n.nat?.map .unsubscribe
+  | .list [.atom "option", .atom "perf", b] => b.bool?.map (.option .perfStats)
+  | .list [.atom "option", .atom "dump", b] => b.bool?.map (.option .dumpComputed)
+  | .list [.atom "raiseIfError"] => some .raiseIfError
+  | .list [.atom "inspect"] => some .inspect
+  | _ => none
+
+/-- `statsOk perf` after the kind in the case line (absent = the defaults: the perf-stats step can run, profiling off) -/
+def cfg? : List Sexp → Option Cfg
+  | [] => some {}
+  | [h, p] => do some { statsOk := (← h.bool?), perf := (← p.bool?) }
   | _ => none
 
 def outc? : Sexp → Option (Option Outc)
@@ -57,6 +67,7 @@ def res? : Sexp → Option Res
   | .list [.atom "raised", .atom "alreadyComputed"] => some (.raised .alreadyComputed)
   | .list [.atom "raised", .atom "notImplemented"] => some (.raised .notImplemented)
   | .list [.atom "raised", .atom "notSubscribed"] => some (.raised .notSubscribed)
+  | .list [.atom "raised", .atom "hook"] => some (.raised .hook)
   | .list (.atom "raised" :: _) => some (.raised .other)
   | .list [.atom "bool", b] => b.bool?.map .bool
   | .list [.atom "unit"] => some .unit
@@ -81,18 +92,18 @@ def firstDiff (a b : List Obs) (i : Nat := 0) : Option (Nat × String) :=
 
 /-- `hdr` = arguments of the case line after the id; `body` = the observation lines -/
 def handle (id : Nat) (hdr : List Sexp) (body : List Sexp) : String :=
-  match kind? hdr, body.mapM obs? with
-  | some k, some impl =>
+  match kind? (hdr.take 2), cfg? (hdr.drop 2), body.mapM obs? with
+  | some k, some c, some impl =>
     let ops := impl.map (·.op)
-    let model := run (init k) ops
+    let model := run (init k c) ops
     let corr := firstDiff model impl
-    let spec := specClause k impl
-    let specm := specClause k model
+    let spec := specClause k impl c
+    let specm := specClause k model c
     let c := match corr with | none => "ok" | some _ => "diff"
     let d := match corr with | none => "" | some (i, s) => (s!"obs {i}: {s}".replace "\n" " ")
     let f (s : String) := if s == "ok" then "ok" else "fail:" ++ s
     s!"R {id} CORR={c} SPEC={f spec} SPECM={f specm} | {d}"
-  | _, _ => s!"R {id} CORR=diff SPEC=ok SPECM=ok | unparsable case"
+  | _, _, _ => s!"R {id} CORR=diff SPEC=ok SPECM=ok | unparsable case"
 
 /-! ### mode `futsubs`: notification rounds of futures that are NOT kinds of the one-future model (batch items, batches,
   DebugBatchItem, AsyncTasks that block) - no theorem speaks about how these complete; each round is judged by the
@@ -162,5 +173,26 @@ def handleSubs (id : Nat) (_hdr : List Sexp) (body : List Sexp) : String :=
     let c := if exp == got then "ok" else "diff"
     let f (s : String) := if s == "ok" then "ok" else "fail:" ++ s
     s!"R {id} CORR={c} SPEC={f verdict} SPECM=ok | notified per future and round: expected {exp}, got {got}"
+
+/-! ### mode `futcopy`: a ConstFuture / ErrorFuture constructed by copy.copy / copy.deepcopy / pickle / __reduce__ -
+  no theorem speaks about copies; direct expectation: the copy exists, is computed, reports the original's outcome,
+  refuses a second set (FutureIsAlreadyComputed), still reports the outcome afterwards, and the original is untouched.
+
+  (result made computed same second-set-result kept original-untouched) -/
+def handleCopy (id : Nat) (_hdr : List Sexp) (body : List Sexp) : String :=
+  match body with
+  | [.list [.atom "result", made, computed, same, again, kept, orig]] =>
+    let b (x : Sexp) := x.nat? == some 1
+    let verdict :=
+      if !b made then "copy-fails"
+      else if !b computed then "copy-not-complete-from-construction"
+      else if !b same then "copy-reports-another-outcome"
+      else if res? again != some (.raised .alreadyComputed) then "failed-set-raises"
+      else if !b kept then "failed-set-noop"
+      else if !b orig then "original-changed"
+      else "ok"
+    if verdict == "ok" then s!"R {id} CORR=ok SPEC=ok SPECM=ok | "
+    else s!"R {id} CORR=diff SPEC=fail:{verdict} SPECM=ok | made {made} computed {computed} same-outcome {same} second-set {again} outcome-kept {kept} original-untouched {orig}"
+  | _ => s!"R {id} CORR=diff SPEC=ok SPECM=ok | unparsable futcopy case"
 
 end AsynqModel.Drv.Futures
